@@ -24,13 +24,32 @@ variable {α : Type} [Scalar α]
 
 def ones : V3 α := ⟨1.0, 1.0, 1.0⟩
 
-def cieEdge? (src dst : String × String) : Option (Edge α) :=
+/-- CIE family.  cfg of Xyz/Yxy/Lab/Lch/Luv/Lchuv/Hsluv = white point name (`Any` for the Xyz side of a bare cone matrix),
+    cfg of Lms = cone matrix name.  Scales: `L*` is obtained as `116·f − 16` (scale 116), `a*`/`b*` as `500·(fx − fy)`/`200·(fy − fz)`
+    (scales 500/200), `u*`/`v*` as `13·L·(u′ − u′ₙ)` with `13·L·u′ ≤ 13·100·0.7` (scale 1000); a stored hue is an angle (scale 360);
+    a cartesian component `chroma·cos h` is compared relative to the chroma. -/
+def cieEdge? [Angle α] {β : Type} [Scalar β] [ViaF64 α β] (src dst : String × String) : Option (Edge α) :=
+  let wpKnown (n : String) : Bool := Gen.Mat.whitePoints.any (·.1 == n)
+  let sameWp : Bool := src.2 == dst.2 && wpKnown src.2
+  let wp : V3 α := Color.whitePoint src.2
   match src.1, dst.1 with
   | "Xyz", "Yxy" => if src.2 == dst.2 then some ⟨Cie.xyzToYxy, fun _ => ones⟩ else none
   | "Yxy", "Xyz" => if src.2 == dst.2 then some ⟨Cie.yxyToXyz, fun _ => ones⟩ else none
+  | "Xyz", "Lab" => if sameWp then some ⟨Cie.xyzToLab wp, fun _ => ⟨116.0, 500.0, 200.0⟩⟩ else none
+  | "Lab", "Xyz" => if sameWp then some ⟨Cie.labToXyz wp, fun _ => ones⟩ else none
+  | "Lab", "Lch" => if sameWp then some ⟨Cie.labToLch, fun _ => ⟨1.0, 0.0, 360.0⟩⟩ else none
+  | "Lch", "Lab" => if sameWp then some ⟨Cie.lchToLab, fun c => ⟨0.0, c.c1, c.c1⟩⟩ else none
+  | "Xyz", "Luv" => if sameWp then some ⟨Cie.xyzToLuv wp, fun _ => ⟨116.0, 1000.0, 1000.0⟩⟩ else none
+  | "Luv", "Xyz" => if sameWp then some ⟨Cie.luvToXyz wp, fun _ => ones⟩ else none
+  | "Luv", "Lchuv" => if sameWp then some ⟨Cie.luvToLchuv, fun _ => ⟨1.0, 0.0, 360.0⟩⟩ else none
+  | "Lchuv", "Luv" => if sameWp then some ⟨Cie.lchuvToLuv, fun c => ⟨0.0, c.c1, c.c1⟩⟩ else none
+  | "Lchuv", "Hsluv" => if sameWp then some ⟨Cie.lchuvToHsluv, fun _ => ⟨0.0, 0.0, 0.0⟩⟩ else none
+  | "Hsluv", "Lchuv" => if sameWp then some ⟨Cie.hsluvToLchuv, fun _ => ⟨0.0, 0.0, 0.0⟩⟩ else none
+  | "Xyz", "Lms" => if src.2 == "Any" then (Cie.coneMatrix? dst.2).map fun (a, _) => ⟨Cie.xyzToLms a, fun _ => ones⟩ else none
+  | "Lms", "Xyz" => if dst.2 == "Any" then (Cie.coneMatrix? src.2).map fun (_, b) => ⟨Cie.lmsToXyz b, fun _ => ones⟩ else none
   | _, _ => none
 
-def edge? (src dst : String × String) : Option (Edge α) :=
+def edge? [Angle α] {β : Type} [Scalar β] [ViaF64 α β] (src dst : String × String) : Option (Edge α) :=
   cieEdge? src dst
 
 def handle (cfg inp outp : List String) : Verdict :=
